@@ -125,6 +125,14 @@ Theorem gen_correct_partial_for_range cf o lv st je jst x a1 rest body hasie ie 
   sim_step cf o lv st je jst (SForRange x a1 rest body hasie ie) fuel text env' old.
 Proof. apply gen_correct_partial_stmt. Qed.
 
+(* {css sfx} and {css e, sfx}: the Go renderer writes String(e) + "-" + sfx in one Write; the JavaScript appends  e + '-'  and then 'sfx' *)
+Theorem gen_correct_partial_css cf o lv st je jst e sfx fuel text env' old :
+  c_oblig cf = [] -> (sdepth (SCss e sfx) < fuel)%nat -> sim cf st je jst old ->
+  swf lv (SCss e sfx) = true -> lvok lv (j_scope jst) ->
+  sout (c_ij cf) (mode st) go_print_text (sc_lookup (ctx st)) (SCss e sfx) = Some (text, env') ->
+  sim_step cf o lv st je jst (SCss e sfx) fuel text env' old.
+Proof. apply gen_correct_partial_stmt. Qed.
+
 (* the general statement with sim and sim_step unfolded, for a renderer that writes to its output (no capture
    buffer, no budget), as stated in Properties/C04.v *)
 Theorem gen_correct_partial_stmt_unfolded : forall cf o lv st je jst s fuel text env' old,
